@@ -17,10 +17,11 @@ Require Import Model Spec Refine.
 Theorem C05_scoping :
   forall (g funs : list (list nat * expr)) (ignored : option nat)
          (t : list nat) (rx : nat -> nat -> option nat),
-    (forall r b, nth_error g r = Some ([], b) -> wf g ignored t rx [] b) ->
+    (forall r ps b, nth_error g r = Some (ps, b) -> wf g funs ignored t rx ps b) ->
+    (forall fid ps b, nth_error funs fid = Some (ps, b) -> wf g funs ignored t rx ps b) ->
     (forall r, ignored = Some r -> exists es, nth_error g r = Some ([], Skip es)) ->
-    forall n e sc E s, wf g ignored t rx sc e -> scope_of sc E -> sub E (locals s) ->
-      match peg g ignored t rx n E e (pos s), exec true g funs ignored t rx n e s with
+    forall n e sc E s, wf g funs ignored t rx sc e -> scope_of sc E -> sub E (locals s) ->
+      match peg g funs ignored t rx n E e (pos s), exec true g funs ignored t rx n e s with
       | Fuel, OutOfFuel => True
       | Raise, _ => True
       | Match v p', Done s' => status s' = true /\ result s' = v /\ pos s' = p' /\ sub E (locals s')
@@ -32,30 +33,30 @@ Proof. exact exec_refines_peg. Qed.
 Print Assumptions C05_scoping.
 
 (* what the specification says *)
-Theorem C05_let_is_lexical : forall g ig t rx n E x sh a body p v p1,
-  peg g ig t rx n E a p = Match v p1 ->
-  peg g ig t rx (S n) E (Let x sh a body) p = peg g ig t rx n ((x, v) :: E) body p1.
+Theorem C05_let_is_lexical : forall g funs ig t rx n E x sh a body p v p1,
+  peg g funs ig t rx n E a p = Match v p1 ->
+  peg g funs ig t rx (S n) E (Let x sh a body) p = peg g funs ig t rx n ((x, v) :: E) body p1.
 Proof. intros. cbn [peg]. now rewrite H. Qed.
 Print Assumptions C05_let_is_lexical.
 
-Theorem C05_where : forall g ig t rx n E e pred p v p1 fn p2 w,
-  peg g ig t rx n E e p = Match v p1 -> peg g ig t rx n E pred p1 = Match (VFun fn) p2 ->
+Theorem C05_where : forall g funs ig t rx n E e pred p v p1 fn p2 w,
+  peg g funs ig t rx n E e p = Match v p1 -> peg g funs ig t rx n E pred p1 = Match (VFun fn) p2 ->
   apply_fun E fn v = Some w ->
-  peg g ig t rx (S n) E (Where e pred) p = if truthy w then Match v p2 else Fails.
+  peg g funs ig t rx (S n) E (Where e pred) p = if truthy w then Match v p2 else Fails.
 Proof. intros. cbn [peg]. now rewrite H, H0, H1. Qed.
 Print Assumptions C05_where.
 
-Theorem C05_apply : forall g ig t rx n E a b p va p1 fn p2 w,
-  peg g ig t rx n E a p = Match va p1 -> peg g ig t rx n E b p1 = Match (VFun fn) p2 ->
+Theorem C05_apply : forall g funs ig t rx n E a b p va p1 fn p2 w,
+  peg g funs ig t rx n E a p = Match va p1 -> peg g funs ig t rx n E b p1 = Match (VFun fn) p2 ->
   apply_fun E fn va = Some w ->
-  peg g ig t rx (S n) E (Apply a b false) p = Match w p2.      (* a |> f  =  f(a) *)
+  peg g funs ig t rx (S n) E (Apply a b false) p = Match w p2.      (* a |> f  =  f(a) *)
 Proof. intros. cbn [peg]. now rewrite H, H0, H1. Qed.
 Print Assumptions C05_apply.
 
-Theorem C05_apply_left : forall g ig t rx n E a b p fn p1 vb p2 w,
-  peg g ig t rx n E a p = Match (VFun fn) p1 -> peg g ig t rx n E b p1 = Match vb p2 ->
+Theorem C05_apply_left : forall g funs ig t rx n E a b p fn p1 vb p2 w,
+  peg g funs ig t rx n E a p = Match (VFun fn) p1 -> peg g funs ig t rx n E b p1 = Match vb p2 ->
   apply_fun E fn vb = Some w ->
-  peg g ig t rx (S n) E (Apply a b true) p = Match w p2.       (* f <| a  =  f(a) *)
+  peg g funs ig t rx (S n) E (Apply a b true) p = Match w p2.       (* f <| a  =  f(a) *)
 Proof. intros. cbn [peg]. now rewrite H, H0, H1. Qed.
 Print Assumptions C05_apply_left.
 
@@ -73,7 +74,7 @@ Print Assumptions C05_class_member.
 Definition ex_g (flag : bool) : list (list nat * expr) :=
   [([], Let 1 false (Str [97] false) (Seq [Let 1 flag (Str [98] false) (Py (PVar 1)); Py (PVar 1)]))].
 Example C05_hypotheses_satisfiable :
-  (forall r b, nth_error (ex_g true) r = Some ([], b) -> wf (ex_g true) None [97; 98] (fun _ _ => None) [] b)
+  (forall r b, nth_error (ex_g true) r = Some ([], b) -> wf (ex_g true) [] None [97; 98] (fun _ _ => None) [] b)
   /\ match exec true (ex_g true) [] None [97; 98] (fun _ _ => None) 10 (Ref 0) (fresh 0) with
      | Done s => result s = VList [VStr [98]; VStr [97]] | _ => False end.
 Proof.
